@@ -35,6 +35,11 @@ func NewWeekFromString(yyyyWww string) (Week, error) {
 		if yErr != nil {
 			return nil, errors.New("INVALID_WEEK_PERIOD")
 		}
+		// December 28th is always in the last week of its year.
+		lastWeekRef, _ := klog.NewDate(year, 12, 28)
+		if _, lastWeek := lastWeekRef.WeekNumber(); week > lastWeek {
+			return nil, errors.New("INVALID_WEEK_PERIOD")
+		}
 		for ref.Weekday() != 1 {
 			ref = ref.PlusDays(-1)
 		}
